@@ -174,7 +174,8 @@ namespace nmtools::utl
         }
         ~vector()
         {
-            if (buffer_ && (buffer_size_ > 0)) {
+            // buffer_ is always owned; buffer_size_ may be 0 (vector(0) holds a zero-byte block)
+            if (buffer_) {
                 allocator.deallocate(buffer_);
             }
         }
